@@ -119,6 +119,81 @@ def dstep (r : RState) : DOp → RState
 
 def drun (r : RState) (ops : List DOp) : RState := ops.foldl dstep r
 
+/-! ### whitespace-sensitive reading of "the lines a commit adds"
+
+  The ids of this model identify a line modulo whitespace; git does not: a line whose indentation changed is,
+  for `git diff`, a line the new content ADDS (and the old one removes), while git-ai's own diffs carry its
+  attribution over (a whitespace-only change keeps the author: attribution_tracker.rs). Where the split
+  `to_authorship_log_and_initial_working_log` asks git which lines a commit adds (`splitNote`'s `parent.contains`)
+  or which lines of the working tree the new HEAD does not have (`splitPending`), a line that the older content
+  holds in ANOTHER whitespace form counts as added. Which lines those are is git's business and an input here
+  (`re`, like the merged contents of a replay; `hum` ⊆ `re`: the lines whose current form a commit introduced
+  WITHOUT listing them — git blame stops there): with `re = []` the three operations below ARE `commitStep`,
+  `amendStep`, `resetStep` (`commitStepWs_nil`, `amendStepWs_nil`, `resetStepWs_nil` in Lemmas/DiscardWs.lean).
+  They are what the driver runs for a commit / amend / reset when the runner reports such lines.
+
+    commitStepWs   post_commit.rs: the working log credits the re-indented line (a claim in INITIAL left by a
+                   reset / amend, carried over by the pre-commit checkpoint), git lists it as added: it is in the note
+    amendStepWs    rewrite_authorship_after_commit_amend: `from_working_log_for_commit(original)` = working log, gaps
+                   filled by blame at the replaced commit (no lower bound), carried over to the amended content
+    resetStepWs    reconstruct_working_log_after_reset since /repo c73c4deb: `from_working_log_for_commit(old HEAD,
+                   blame_start = target)` = working log, gaps filled by `git blame target..old`, and for what is still
+                   open the target's own attribution `new_for_base_commit(target, blame_start = target)` =
+                   `git blame target^!`. A bounded blame reports an older line under the BOUNDARY commit (the
+                   target, resp. the target's parent) and the overlay reads that commit's note: the lines of the
+                   `k` undone commits, of the target and of the target's parent keep their session
+                   (`blame` over the newest `k + 2` commits), older lines are nobody's. Before c73c4deb
+                   `target..target` blamed the working tree and the target's attribution came out empty. -/
+
+/-- `xs` without the ids git reports in another whitespace form -/
+def minus (xs re : List Nat) : List Nat := xs.filter (fun y => !re.contains y)
+
+def commitStepWs (re : List Nat) (st : State) : State :=
+  let st := checkpoint st none
+  { head := st.index, index := st.index, work := st.work, entries := [],
+    initial := splitPending st.index st.work (wlAuthor st), initSnap := st.work,
+    notes := splitNote (minus st.head re) st.index (wlAuthor st) :: st.notes,
+    log := (st.index, st.head) :: st.log }
+
+/-- working log first; blame fills the gaps except for the lines `hum`:
+    (a) lines whose CURRENT whitespace form was introduced by a commit whose note does not list them (a person
+        re-indented the line and committed: git blame stops at that commit, the id-level `blame` of this model would
+        walk on to the commit that introduced the text);
+    (b) lines for which the working log holds an explicit human OVERRIDE: an agent had modified the committed line in
+        place, the committed text came back (checkout -f, restore, …) and the next checkpoint recorded that as a
+        person's change of the agent's line — for `merge_attributions_favoring_first` that is an attribution of the
+        working log (the person's), not a gap, so blame does not fill it. -/
+def mergedAuthorWs (hum : List Nat) (st : State) (y : Nat) : Author :=
+  if hum.contains y then wlAuthor st y else mergedAuthor st y
+
+def amendCoreWs (re hum : List Nat) (st : State) : State :=
+  match st.log, st.notes with
+  | (_, p) :: log, _ :: notes =>
+    let author := mergedAuthor st
+    { head := st.index, index := st.index, work := st.work, entries := [],
+      initial := splitPending st.index st.work author, initSnap := st.work,
+      notes := splitNote (minus p re) st.index (mergedAuthorWs hum st) :: notes, log := (st.index, p) :: log }
+  | _, _ => st
+
+def amendStepWs (re hum : List Nat) (st : State) : State := amendCoreWs re hum (checkpoint st none)
+
+/-- the author the reset's reconstruction finds for a line that the target holds in another whitespace form:
+    the working log, then blame bounded below by the target's parent -/
+def boundedAuthor (k : Nat) (hum : List Nat) (st : State) (y : Nat) : Author :=
+  match wlAuthor st y with
+  | some s => some s
+  | none =>
+    if st.head.contains y && !hum.contains y then blame (st.log.take (k + 2)) (st.notes.take (k + 2)) y else none
+
+def resetStepWs (k : Nat) (soft : Bool) (re hum : List Nat) (st : State) : State :=
+  let st' := undoN k st
+  { st' with index := if soft then st.index else st'.head, entries := [],
+             initial := (enum1 st.work).filterMap (fun p =>
+               if st'.head.contains p.2 then
+                 (if re.contains p.2 then (boundedAuthor k hum st p.2).map (fun s => (p.1, s)) else none)
+               else (mergedAuthorWs hum st p.2).map (fun s => (p.1, s))),
+             initSnap := st.work }
+
 /-! ### the behaviour BEFORE the repairs (used only by the `regression_*` theorems of Props/C03.lean) -/
 
 /-- attribution applied by bare LINE NUMBER to whatever the file contains now: how INITIAL was read
